@@ -31,6 +31,18 @@ CLAIMED = {
         "property-based testing (Hypothesis) against an exact-rational reference scorer + bounded-exhaustive tie shapes",
         "3/C04",
     ),
+    "C12": (
+        "Generated profiles / ballot tuples / single ballots (tied positions, partial ballots, scores, rational "
+        "weights) x removal sets (none, some, all, absent names; planted exhausted and coinciding ballots) x "
+        "condense x leave_zero flags are compared, as content->weight maps, with a per-ballot pure function on "
+        "plain data; add_missing_cands, expand_tied_ballot (exact multiset of linear extensions at w/prod k!), "
+        "resolve_profile_ties and the cleaning module (loader-style ballots with repeats and blanks) likewise.  "
+        "Thorough enumerates every tied shape over <= 4 candidates.  Held on everything generated.",
+        "Trusts the harness's plain-data model; ids / voter sets not compared except merge_ballots' union; "
+        "remove_noncands may or may not de-duplicate on inputs with repeats (both accepted).",
+        "property-based testing (Hypothesis) against a plain-data reference model + bounded-exhaustive tie shapes",
+        "3/C12",
+    ),
 }
 
 PENDING_REASON = "check not built yet in this session; the design (DESIGN.md section 3) claims it and it will be registered once it is quiet on the unchanged tree and catches its mutants"
